@@ -96,6 +96,14 @@ def _helpers(ctx, conn, x, out_nobias, desc, tag):
     else:
         if not bool(read.all()):
             return ctx.violation(f"{tag}.like_input.nan", "NaN at an input position the connection reads", desc)
+    # the same round trip for spike-like (bool) and integer-typed data
+    for dt_ in (torch.int64, torch.int32, torch.uint8, torch.bool):
+        xi = (x.abs() * 3).to(dt_) if dt_ != torch.bool else (x > 0)
+        bi = conn.like_input(conn.like_synaptic(xi))
+        ctx.count("integer_helper_checks")
+        if tuple(bi.shape) != tuple(xi.shape) or bi.dtype != xi.dtype or not torch.equal(bi[read], xi[read]):
+            return ctx.violation(f"{tag}.like_input_of_like_synaptic.{str(dt_).replace('torch.', '')}",
+                                 f"mapping {dt_} data to synaptic layout and back does not return it on the positions read", desc)
     W = conn.weight
     pre = conn.presyn_receptive(conn.syncurrent)
     post = conn.postsyn_receptive(out_nobias)
